@@ -37,6 +37,20 @@ Definition subband_pipe fs nch gulp start nsamps (md nsub : Z) (delays junk : ar
   | PErr _ _ => None
   end.
 
+(** transforms whose output buffer persists between blocks (remove_zerodm): the buffer is threaded through the blocks *)
+Definition stream_fold (f : arr -> Z -> arr -> arr * Z) (junk : arr) (fs : list file) (nch gulp start nsamps : Z) : option (list Z) :=
+  match run_plan fs nch gulp start nsamps 0 with
+  | POk bl => Some (snd (fold_left (fun (st : arr * list Z) (b : Z * Z * list Z) =>
+                      let '(n_r, ii, d) := b in
+                      let r := f (fst st) n_r (of_list d) in (fst r, snd st ++ emit r)) bl (junk, [])))
+  | PErr _ _ => None
+  end.
+
+(** zero-DM removal over the integers: the kernel uses only +, - and *, so the same data flow holds over any commutative ring
+    (the implementation runs it in float32 with bpass = the file's bandpass and chanwts = bpass / sum(bpass)) *)
+Definition zerodm_pipe fs nch gulp start nsamps (junk bpass chanwts : arr) :=
+  stream_fold (fun out n_r d => zerodm_block out d bpass chanwts nch n_r) junk fs nch gulp start nsamps.
+
 (** integer mean reduced to an unsigned depth: truncation of a non-negative quotient *)
 Definition div_floor (a b : Z) : Z := a / b.
 
@@ -46,5 +60,6 @@ Definition pipe7_eval (api : Z) (xs : list Z) (nch N gulp start nsamps : Z) (ps 
     if api =? 0 then invert_pipe fs nch gulp start nsamps (fun _ => 77)
     else if api =? 1 then downsample_pipe fs nch gulp start nsamps div_floor (fun _ => 77) (nth 0 ps 1) (nth 1 ps 1)
     else if api =? 2 then subband_pipe fs nch gulp start nsamps (nth 0 ps 0) (nth 1 ps 1) (of_list (skipn 2 ps)) (fun _ => 77)
+    else if api =? 3 then zerodm_pipe fs nch gulp start nsamps (fun _ => 77) (of_list (firstn (Z.to_nat nch) ps)) (of_list (skipn (Z.to_nat nch) ps))
     else None in
   match res with Some l => l | None => [-1] end.
